@@ -180,6 +180,12 @@ def rule_C17(env):
         if len(samples) < 6 and lf.pre:
             samples.append(sample(lf, []))
     res.floor("O3", 300, "emission leaves")
+    import rules_c04
+    tmp = Result("C17", "model_checking")
+    rules_c04.emission_findings(env, tmp, tr, "safe")
+    for f in tmp.findings:
+        res.add("O5", f.key.split("/", 2)[2], "the reference machine executes the emitted bytes, which are not the single well-formed opcode the simulation assumes: " + f.msg,
+                f.where, f.detail)
     bfs = bfs_pass(env, res, "C17")
     coverage_mc(res, env, tr, n, nobl, samples, bfs)
     res.assumptions = ASSUME_PVM
@@ -253,6 +259,25 @@ def rule_C03(env):
                     op_loc(env, "::can_emit"), sample(lf, probs))
         if len(samples) < 6:
             samples.append(sample(lf, []))
+    # the kinds the guards see are only meaningful if the simulation tracks the kinds the bytes produce:
+    # kind part of O3 and the memo-key identity O5 for every leaf (prerequisite shared with C17)
+    for op, lf in iter_emit_leaves(env, res, tr):
+        if lf.end is not None:
+            continue
+        nobl += 1
+        res.count("R03.c")
+        try:
+            p3 = R.o3_check(spec, lf)
+        except (KeyError, AssertionError, OverflowError) as e:
+            p3 = ["cannot evaluate: %r" % (e,)]
+        p3 = [p for p in p3 if p.startswith("slot ") and "mark" not in p.lower()]
+        if p3:
+            res.add("R03.c", "process_stack_ops/%s/kind-drift" % op,
+                    "the simulated kind after %s differs from the kind the bytes produce, so later kind guards test the wrong kind: %s" % (op, "; ".join(p3)),
+                    op_loc(env, "::process_stack_ops"), sample(lf, p3))
+        for p in memo_key_identity(lf):
+            res.add("R03.c", "emit_and_process/%s/memo-key-identity" % op,
+                    "%s: %s - the simulation records the kind of a different memo entry than the one the bytes fetch" % (op, p), op_loc(env, "::emit_and_process"), sample(lf, [p]))
     res.floor("R03.a", 40, "guarded leaves of kind-constrained opcodes")
     if len(listed) < 17:
         res.add("R03.a", "floor-ops", "only %d kind-constrained opcodes have an enabled leaf (expected 17+)" % len(listed))
